@@ -152,6 +152,7 @@ type Exec struct {
 	curFn     *ssa.Function
 	inPending int
 	entryPkg  *ssa.Package
+	timers    []*vTimer
 }
 
 func NewExec(eng *Engine, sol *Solver, harness string, prefix []uint64) *Exec {
@@ -1519,14 +1520,17 @@ func (ex *Exec) chanRecv(c *ChanV, commaOk bool) Value {
 		ok = false
 	} else {
 		ex.runPending()
+		for len(c.buf) == 0 && !c.closed {
+			if !ex.fireNextTimer(nil) {
+				panic(pathEnd{"block", "receive on empty channel in sequential mode"})
+			}
+		}
 		if len(c.buf) > 0 {
 			v = c.buf[0]
 			c.buf = c.buf[1:]
-		} else if c.closed {
+		} else {
 			v = ex.zero(c.elemT)
 			ok = false
-		} else {
-			panic(pathEnd{"block", "receive on empty channel in sequential mode"})
 		}
 	}
 	if commaOk {
@@ -1540,6 +1544,7 @@ func (ex *Exec) selectOp(in *ssa.Select, fr *frame) Value {
 	chosen := -1
 	var recv Value
 	recvOk := false
+retry:
 	for i, st := range in.States {
 		c, _ := fr.get(st.Chan).(*ChanV)
 		if c == nil {
@@ -1572,6 +1577,9 @@ func (ex *Exec) selectOp(in *ssa.Select, fr *frame) Value {
 		}
 	}
 	if chosen < 0 && in.Blocking {
+		if ex.fireNextTimer(fr) {
+			goto retry
+		}
 		panic(pathEnd{"block", "select blocks in sequential mode"})
 	}
 	ex.effect()
